@@ -535,10 +535,11 @@ HANDLER_SETS = [
     ("arch", "FLAGS_NO_ARG"), ("arch", "FLAGS_WITH_ARG"), ("arch", "ARCH_FLAGS"),
     ("caffeinate", "FLAGS_NO_ARG"), ("caffeinate", "FLAGS_WITH_ARG"),
     ("fd", "EXEC_FLAGS"), ("script", "FLAGS_WITH_ARG"), ("script", "FLAGS_NO_ARG"),
-    ("docker", "EXEC_FLAGS_WITH_ARG"), ("shell", "COMMANDS"),
+    ("docker", "EXEC_FLAGS_WITH_ARG"), ("shell", "COMMANDS"), ("uv", "RUN_FLAGS_WITH_ARG"), ("uv", "SAFE_COMMANDS"),
 ]
+HANDLER_TUPLES = [("tar", "RUNS_PROGRAM_OPTIONS")]
 HANDLER_STRS = [("docker", "EXEC_SHORT_FLAGS_WITH_ARG")]
-HANDLER_DICTS = [("xargs", "FLAG_CONTEXT"), ("find", "FLAG_CONTEXT"), ("fd", "FLAG_DISPLAY")]
+HANDLER_DICTS = [("xargs", "FLAG_CONTEXT"), ("find", "FLAG_CONTEXT"), ("fd", "FLAG_DISPLAY"), ("tar", "OPERATIONS")]
 
 
 def gen_handlers() -> str:
@@ -556,6 +557,15 @@ def gen_handlers() -> str:
             r = []
         out.append("/-- `%s` of cli/%s.py, sorted -/" % (name, mod))
         out.append("def %s_%s : List String := %s" % (mod, name, lean_list(sorted(set(r)))))
+        out.append("")
+    for mod, name in HANDLER_TUPLES:
+        v = module_assign(parse_file("cli/%s.py" % mod), name)
+        r = const_strs(v) if v is not None else None
+        if r is None:
+            MISSING.append("cli/%s.py:%s" % (mod, name))
+            r = []
+        out.append("/-- `%s` of cli/%s.py, in source order -/" % (name, mod))
+        out.append("def %s_%s : List String := %s" % (mod, name, lean_list(r)))
         out.append("")
     for mod, name in HANDLER_STRS:
         v = module_assign(parse_file("cli/%s.py" % mod), name)
